@@ -23,6 +23,8 @@ pub struct Remote {
     pub registry: BTreeMap<String, Vec<RegVersion>>,
     /// crates whose crates.io metadata matches the local package (description)
     pub matching_metadata: BTreeSet<String>,
+    /// (crate, version) pairs the index marks as yanked (they are published all the same)
+    pub yanked: BTreeSet<(String, semver::Version)>,
 }
 
 impl Remote {
@@ -45,7 +47,7 @@ impl Remote {
                 .map(|v| {
                     serde_json::to_string(&json!({"name": name, "vers": v.version.to_string(), "deps": [],
                         "cksum": "90527ab4abff2f0608cdb1a78e2349180e1d92059f59b5a65ce2a1a15a499b73",
-                        "features": {}, "yanked": false}))
+                        "features": {}, "yanked": self.yanked.contains(&(name.clone(), v.version.clone()))}))
                     .unwrap()
                 })
                 .collect::<Vec<_>>()
@@ -362,6 +364,13 @@ pub fn gen_cmd_world(rng: &mut Rng, first_party_in_registry: bool) -> CmdWorld {
             vs.into_iter().map(|v| RegVersion { version: v, user: if rng.chance(5, 6) { Some(rng.range(1, 2) as u64) } else { None }, day: rng.below(10) as i64 * 8 }).collect(),
         );
     }
+    for (name, vs) in &remote.registry {
+        for v in vs {
+            if rng.chance(1, 6) {
+                remote.yanked.insert((name.clone(), v.version.clone()));
+            }
+        }
+    }
     CmdWorld { graph, config, audits, remote }
 }
 
@@ -636,6 +645,11 @@ pub fn gen_unpublished_world(rng: &mut Rng) -> CmdWorld {
     remote.registry.insert("bravo".into(), published.iter().map(|m| RegVersion { version: semver::Version::new(*m, 0, 0), user: Some(1), day: 0 }).collect());
     remote.matching_metadata.insert("bravo".into());
     remote.registry.insert("charlie".into(), vec![RegVersion { version: semver::Version::new(1, 0, 0), user: Some(1), day: 0 }]);
+    for m in &published {
+        if rng.chance(1, 4) {
+            remote.yanked.insert(("bravo".into(), semver::Version::new(*m, 0, 0)));
+        }
+    }
     CmdWorld { graph, config, audits, remote }
 }
 
@@ -754,6 +768,13 @@ pub fn exec_history(r: &mut Report, rng: &mut Rng, idx: u64, mut w: CmdWorld, p:
         let before2 = p.files(); // the unlocked probe check may itself update the lock
         // clone without the store lock (a held Store would block the command under test)
         let live = if prop == "C11" { p.acquire(false).ok().map(|s| s.clone_for_suggest(false)) } else { None };
+        // C02: the conclusion the resolver reaches on the store as this very command will load it
+        let concl_before: Option<bool> = if prop == "C02" && (cmd.is_empty() || cmd == ["--locked"]) {
+            let md = p.md.clone();
+            p.acquire(cmd.contains(&"--locked")).ok().map(|s| s.clone_for_suggest(false)).and_then(|s| guarded(|| matches!(resolver::resolve(&md, None, &s).conclusion, Conclusion::Success(_))).ok())
+        } else {
+            None
+        };
         let (o, _text) = p.run(cmd);
         let after = p.files();
         let case = format!("{}\nstep: {cmd_s}\n--- audits.toml before\n{}\n--- config.toml before\n{}\n--- imports.lock before\n{}", trace.join("\n"), before2[0], before2[1], before2[2]);
@@ -770,6 +791,20 @@ pub fn exec_history(r: &mut Report, rng: &mut Rng, idx: u64, mut w: CmdWorld, p:
             nontrivial = true;
         }
         match prop.as_str() {
+            "C02" => {
+                // the exit status is non-zero exactly when the conclusion is not success, and the
+                // human report says which
+                if let (true, Some(success)) = (is_check, concl_before) {
+                    r.oracle_checked += 1;
+                    match &o {
+                        Outcome::Ok if !success => r.fail("oracle", "C02/cmd/exit-zero-on-failure", format!("`{cmd_s}` exits 0 but the resolver's conclusion on the same store is a failure"), &case),
+                        Outcome::Exit(c) if success || *c == 0 => r.fail("oracle", "C02/cmd/exit-nonzero-on-success", format!("`{cmd_s}` exits {c} but the resolver's conclusion on the same store is success"), &case),
+                        Outcome::Ok if !_text.contains("Vetting Succeeded") => r.fail("oracle", "C02/cmd/success-not-reported", format!("`{cmd_s}` exits 0 without reporting success: {}", _text.chars().take(200).collect::<String>()), &case),
+                        Outcome::Exit(_) if !_text.contains("Vetting Failed") && !_text.contains("iolation") => r.fail("oracle", "C02/cmd/failure-not-reported", format!("`{cmd_s}` fails without a failure report: {}", _text.chars().take(200).collect::<String>()), &case),
+                        _ => {}
+                    }
+                }
+            }
             "C09" => {
                 if is_check && !locked {
                     if o == Outcome::Ok {
